@@ -59,3 +59,8 @@ From SA Require Export Model.Auc.
 Definition auc64 := auc succ64 pred64.
 Definition auc_agree (tol : Q) (s : scores) (lower upper : Q) (xa ya : axis) (impl : Q) : bool :=
   Qabs_le (auc64 s lower upper xa ya) impl tol.
+
+(* ---------- vectorised queries ---------- *)
+From SA Require Export Model.Vectorised.
+Definition natlist_eqb := list_eqb Nat.eqb.
+Definition arrZ_eqb (a : arr Z) (sh : list nat) (d : list Z) : bool := natlist_eqb (shape a) sh && zlist_eqb (data a) d.
